@@ -501,6 +501,31 @@ func wmWait(c core.Case, res *core.Result) {
 			return
 		}
 	}
+	// second phase: the indices the cancelled waiters were registered for are reached now; waiters
+	// that start afterwards on far indices must still wait (nothing stale may wake them)
+	for t := top + 1; t <= top+8; t++ {
+		w.Begin(t)
+	}
+	for t := top + 1; t <= top+8; t++ {
+		w.Done(t)
+	}
+	if d, ok := waitReach(w, top+8, c13Patience()); !ok {
+		res.Violate("C13", "C13/wait/never-catches-up", "second phase: DoneUntil()=%d stays below %d\n%s", d, top+8, goroutineDump())
+		return
+	}
+	var late []*waiter
+	for i := 0; i < 6; i++ {
+		late = append(late, start(top+100+uint64(i), true))
+	}
+	time.Sleep(2 * time.Millisecond)
+	for _, wt := range late {
+		select {
+		case err := <-wt.done:
+			res.Violate("C13", "C13/wait/returned-unreached", "WaitForMark(%d) returned %v although DoneUntil()=%d (a waiter cancelled earlier on a lower index had been registered)", wt.t, err, w.DoneUntil())
+		default:
+		}
+		wt.cancel()
+	}
 	// a context that is already over, on an unreachable index
 	ctx, cancel := context.WithTimeout(context.Background(), time.Millisecond)
 	err := w.WaitForMark(ctx, top+100)
@@ -520,9 +545,39 @@ func wmWait(c core.Case, res *core.Result) {
 	}
 }
 
+// wmFlood: a tight loop of Begin(i); Done(i) far beyond the channel buffer, no observation in
+// between; afterwards the mark must reach the last index without further calls.
+func wmFlood(c core.Case, res *core.Result) {
+	w := watermark.New()
+	defer w.Stop()
+	n := uint64(c.Int("n", 5000))
+	step := uint64(1 + c.Int("gap", 0))
+	var last uint64
+	for i := uint64(1); i <= n; i += step {
+		w.Begin(i)
+		if c.Int("pairs", 1) == 2 {
+			w.Begin(i)
+			w.Done(i)
+		}
+		w.Done(i)
+		last = i
+	}
+	d, ok := waitReach(w, last, c13Patience())
+	if !ok {
+		res.Violate("C13", "C13/flood/never-catches-up", "after %d Begin/Done pairs in a tight loop DoneUntil()=%d stays below %d although every begun index is finished\n%s", n/step, d, last, goroutineDump())
+	} else if d != last {
+		res.Violate("C13", "C13/flood/passed-unfinished", "DoneUntil()=%d after the last finished index %d", d, last)
+	}
+	res.AddObs("flood_pairs", int64(n/step))
+	res.NonTrivial = n > 200
+	res.Hash = fmt.Sprintf("flood-%d-%d-%d", n, step, c.Int("pairs", 1))
+}
+
 func runC13(c core.Case) core.Result {
 	var res core.Result
 	switch c.Kind {
+	case "flood":
+		wmFlood(c, &res)
 	case "seq":
 		wmSeq(c, &res)
 	case "conc":
@@ -560,6 +615,13 @@ func genC13(tier string, seed int64) []core.Case {
 			c.N["sample"] = 1
 		}
 		cs = append(cs, c)
+	}
+	nf := 6
+	if tier == "thorough" {
+		nf = 60
+	}
+	for i := 0; i < nf; i++ {
+		cs = append(cs, core.Case{ID: fmt.Sprintf("flo%05d", i), Kind: "flood", Seed: r.Int63(), N: map[string]int64{"n": int64(2000 + r.Intn(20000)), "gap": int64(i % 3), "pairs": int64(1 + i%2)}})
 	}
 	for i := 0; i < nw; i++ {
 		c := core.Case{ID: fmt.Sprintf("wai%05d", i), Kind: "wait", Seed: r.Int63(), N: map[string]int64{}}
@@ -607,7 +669,7 @@ func c13SelfTest() error {
 func init() {
 	core.Register(&core.Check{
 		Prop: "C13", Level: "exploration",
-		Rule: "seq cases: one goroutine issues 50-600 Begin/Done calls (repeated indices, indices below the current mark, out-of-order Done, bursts with >100 marks in flight, Done-without-Begin as the very first mark); marks are processed in call order so the logical mark after each call is known from a reference model: every sampled DoneUntil must be <= it, never decrease, and reach it at quiescent points without further calls; conc cases: 2-6 goroutines x 25 calls, Done only after the own Begin returned, history of Begin/Done/DoneUntil checked with porcupine (a read is legal iff <= the logical mark at its linearization point), monotone per observer, catches up at the end; wait cases: 5-25 indices, waiters registered before/after their index is reached, several on one index, on never-reached indices with cancellation and deadline; non-trivial = script with a repeated index and an out-of-order Done / history with >=2 goroutines / >=2 waiters returned; distinct by call sequence hash or seed",
+		Rule: "seq cases: one goroutine issues 50-600 Begin/Done calls (repeated indices, indices below the current mark, out-of-order Done, bursts with >100 marks in flight, Done-without-Begin as the very first mark); marks are processed in call order so the logical mark after each call is known from a reference model: every sampled DoneUntil must be <= it, never decrease, and reach it at quiescent points without further calls; conc cases: 2-6 goroutines x 25 calls, Done only after the own Begin returned, history of Begin/Done/DoneUntil checked with porcupine (a read is legal iff <= the logical mark at its linearization point), monotone per observer, catches up at the end; flood cases: 2000-22000 Begin/Done pairs in a tight loop (far more than the channel buffer), then the mark must reach the last index; wait cases: 5-25 indices, waiters registered before/after their index is reached, several on one index, on never-reached indices with cancellation and deadline; non-trivial = script with a repeated index and an out-of-order Done / history with >=2 goroutines / >=2 waiters returned; distinct by call sequence hash or seed",
 		Gen: genC13, Run: runC13, SelfTest: c13SelfTest, BatchSize: 60, GoMaxProcs: 4, Parallel: 8,
 		MinNonTrivial: map[string]int{"quick": 300, "thorough": 10000},
 		Assumptions: []string{"'once every begun index up to t is finished DoneUntil reaches t' is judged for t that was itself begun", "Done-without-Begin is issued only as the very first mark (the recovery usage)",
